@@ -117,7 +117,7 @@ fn gen_bad(rng: &mut Rng, ns: usize, id: usize, lint: bool, slow_err: bool, igno
     let meta = meta_s.as_str();
     let one = (1usize, 1usize);
     let mut kinds: Vec<u32> = (0..9).collect();
-    kinds.extend([14, 14, 15]);
+    kinds.extend([14, 14, 15, 16, 16, 17]);
     if !good_names.is_empty() { kinds.push(9); }
     if slow_err { kinds.extend([10, 10, 11, 11]); }
     if lint { kinds.extend([12, 12, 12]); }
@@ -147,6 +147,9 @@ fn gen_bad(rng: &mut Rng, ns: usize, id: usize, lint: bool, slow_err: bool, igno
                "unknown-identifier-in-nested-scopes", one, 1, true),
         15 => (format!("{} {{ {}{}condition: {}with k = 1 : ( for any i in (1..3) : ( for any j in (i..4) : ( j + k == \"a\" ) ) ) }}", h, meta, strings(""), cond_pre),
                "type-error-in-nested-scopes", one, 1, true),
+        // too-large regexps: found only after the earlier patterns of the rule were registered
+        16 => (format!("{} {{ {}{}condition: {}$z }}", h, meta, strings("$z = /abcd((efg){0,10000}){0,10000}/"), cond_pre), "regexp-too-large", one, 1, true),
+        17 => (format!("{} {{ {}{}condition: {}gs0 matches /([a-z]{{2000}}){{1000}}/ }}", h, meta, strings(""), cond_pre), "matches-regexp-too-large", one, 1, true),
         // a rule using an ignored module is skipped, listed in ignored_rules(), not an error
         _ => (format!("{} {{ {}{}condition: {}ghost_module.some_field == {} }}", h, meta, strings(""), cond_pre, id), "uses-ignored-module", (0, 0), 1, false),
     };
